@@ -28,6 +28,7 @@ import (
 	"github.com/mutagen-io/mutagen/pkg/selection"
 	"github.com/mutagen-io/mutagen/pkg/synchronization"
 	"github.com/mutagen-io/mutagen/pkg/synchronization/core"
+	"github.com/mutagen-io/mutagen/pkg/synchronization/core/ignore"
 	"github.com/mutagen-io/mutagen/pkg/synchronization/rsync"
 	urlpkg "github.com/mutagen-io/mutagen/pkg/url"
 
@@ -52,6 +53,7 @@ type Side struct {
 	Tree      *core.Entry // what the next Scan reports
 	Preserves bool        // Snapshot.PreservesExecutability
 	StripExec bool        // the "filesystem" cannot store executable bits: they are cleared when content is written
+	Phantom   []string    // paths whose directories a scan reports as phantom directories (Docker-style ignores)
 }
 
 // Events returns and clears the event log.
@@ -128,7 +130,20 @@ func (e *endpoint) Scan(_ context.Context, _ *core.Entry, _ bool) (*core.Snapsho
 	e.w.mu.Lock()
 	defer e.w.mu.Unlock()
 	s := e.side()
-	return &core.Snapshot{Content: s.Tree.Copy(core.EntryCopyBehaviorDeep), PreservesExecutability: s.Preserves}, nil, false
+	return &core.Snapshot{Content: Phantomize(s.Tree, s.Phantom), PreservesExecutability: s.Preserves}, nil, false
+}
+
+// Phantomize returns a deep copy of the tree in which the directories at the
+// given paths are phantom directories: what a scan with Docker-style ignores
+// reports for an ignored directory that contains unignored content.
+func Phantomize(tree *core.Entry, paths []string) *core.Entry {
+	out := tree.Copy(core.EntryCopyBehaviorDeep)
+	for _, p := range paths {
+		if e := hx.Lookup(out, p); e != nil && e.Kind == core.EntryKind_Directory {
+			e.Kind = core.EntryKind_PhantomDirectory
+		}
+	}
+	return out
 }
 
 func (e *endpoint) Stage(paths []string, digests [][]byte) ([]string, []*rsync.Signature, rsync.Receiver, error) {
@@ -257,6 +272,14 @@ func Config(mode core.SynchronizationMode, perms core.PermissionsMode) *synchron
 		PermissionsMode:     perms,
 		WatchMode:           synchronization.WatchMode_WatchModeNoWatch,
 	}
+}
+
+// ConfigDocker is Config with Docker-style ignore syntax (snapshots may hold
+// phantom directories, which the controller reifies before reconciling).
+func ConfigDocker(mode core.SynchronizationMode, perms core.PermissionsMode) *synchronization.Configuration {
+	c := Config(mode, perms)
+	c.IgnoreSyntax = ignore.Syntax_SyntaxDocker
+	return c
 }
 
 // NewFakeSession creates a *paused* session over a fresh World.
